@@ -32,6 +32,26 @@ def build():
     return BIN
 
 
+_ZB = [None]
+
+
+def zerv_bin():
+    """the real `zerv` binary built from /repo's working tree (for process-level replays: stdout / exit status)"""
+    tdir = os.path.join(BUILD, 'zerv-target')
+    if _ZB[0]:
+        return _ZB[0]
+    t0 = time.time()
+    env = dict(os.environ, CARGO_NET_OFFLINE='true', RUSTUP_TOOLCHAIN='1.93')
+    p = subprocess.run(['cargo', 'build', '--offline', '--bin', 'zerv', '--manifest-path', os.path.join(REPO, 'Cargo.toml'), '--target-dir', tdir],
+                       env=env, stdout=subprocess.PIPE, stderr=subprocess.STDOUT, text=True)
+    if p.returncode != 0:
+        sys.stderr.write(p.stdout[-3000:])
+        raise SystemExit(2)
+    sys.stderr.write('[native] zerv binary build %.1fs\n' % (time.time() - t0))
+    _ZB[0] = os.path.join(tdir, 'debug', 'zerv')
+    return _ZB[0]
+
+
 class Driver:
     def __init__(self, env=None):
         self.p = None
